@@ -16,7 +16,7 @@ EXTENDS Function
 
 (* ---- named deviations of the code from the properties (section 4 of     *)
 (* DESIGN.md).  TRUE = the repaired behaviour.                             *)
-CHECKPOW2 == FALSE   \* reject an alignment that is not a power of two (C03)
+CHECKPOW2 == TRUE    \* reject an alignment that is not a power of two (C03; fix: commit in /repo)
 CHECKENUMRANGE == FALSE \* reject a discriminant outside the base type (C08)
 
 HexDigits == <<"0","1","2","3","4","5","6","7","8","9","a","b","c","d","e","f">>
@@ -241,11 +241,11 @@ AttemptType(reg, ptr, m, src, p, d) ==
   ELSE IF imp.st = "fail" THEN FailA(imp.why, bv.ins)
   ELSE IF d.defaultable /\ DefaultableProblem(reg2, regions) THEN FailA("not-defaultable", bv.ins)
   ELSE IF d.packed /\ IsSome(d.align) THEN FailA("packed-and-align", bv.ins)
+  ELSE IF ~d.packed /\ CHECKPOW2 /\ ~IsPow2(alignment) THEN FailA("align-not-pow2", bv.ins)
   ELSE IF ~d.packed /\ required > alignment THEN FailA("align-below-required", bv.ins)
   ELSE IF ~d.packed /\ (\E i \in DOMAIN regions : offs[i] % ralign[i] # 0)
        THEN FailA("field-unaligned", bv.ins)
   ELSE IF ~d.packed /\ size % alignment # 0 THEN FailA("size-not-multiple-of-align", bv.ins)
-  ELSE IF ~d.packed /\ CHECKPOW2 /\ ~IsPow2(alignment) THEN FailA("align-not-pow2", bv.ins)
   ELSE Done(TypeRes(size, alignment, regions, bv.vft, imp.out, d), bv.ins)
 
 (* ------------------------------- enums --------------------------------- *)
